@@ -103,7 +103,7 @@ def branch_counters(ctx, stream, ops_path, trace_path):
                     ctx.count("shape.%s" % ("NewManyFromNothing" if tr[:1] == "1" else "NewSingleton"))
             for f, name in (("js", "join_over_static_singleton"), ("lr", "mem_store_written_before_run"),
                             ("jd", "join_over_derived"), ("ju", "join_unchecked"), ("f6", "flagged_f6"), ("jr", "flagged_jr")):
-                if f in t[4:]:
+                if f in t[3:]:
                     ctx.count("shape.%s" % name)
         elif t[0] in ("p.reset", "s.reset"):
             keys = [";".join(o.split(";")[:2]) for o in t[1:]]
